@@ -306,3 +306,67 @@ func runArrayArgProducts(kinds int) {
 }
 
 var _ = gozxing.NewBitArray
+
+// ---------------------------------------------------------------------------- ParseBoolMap
+
+type boolMapCase struct {
+	Kind  string // "boolmap"
+	W, H  int
+	Init  int
+	Extra int // later rows carry this many extra cells (all true) beyond the width of the first row
+}
+
+// boolMapOne: ParseBoolMapToBitMatrix takes the width from the first row; cells of later rows
+// beyond that width are outside the image and must not end up anywhere in the matrix.
+func boolMapOne(l *mc.Local, c boolMapCase) {
+	_, m := initMatrix(c.W, c.H, c.Init)
+	rows := make([][]bool, c.H)
+	for y := range rows {
+		rows[y] = append([]bool{}, m.b[y*c.W:(y+1)*c.W]...)
+		if y > 0 {
+			for k := 0; k < c.Extra; k++ {
+				rows[y] = append(rows[y], true)
+			}
+		}
+	}
+	var r *gozxing.BitMatrix
+	var err error
+	var dis string
+	pm, site := mc.Guard(func() {
+		r, err = gozxing.ParseBoolMapToBitMatrix(rows)
+		if err == nil && r != nil {
+			dis = compareMatrix(r, m)
+		}
+	})
+	l.Count("evaluations", 1)
+	switch {
+	case pm != "":
+		chk.Violation("C16/BitMatrix/panic/ParseBoolMap/"+site, fmt.Sprintf("ParseBoolMapToBitMatrix of %d rows of %d cells (later rows %d cells longer) panics: %s", c.H, c.W, c.Extra, pm), c)
+	case err != nil || r == nil:
+		chk.Violation("C16/BitMatrix/ParseBoolMap", fmt.Sprintf("ParseBoolMapToBitMatrix of %d rows of %d cells (later rows %d cells longer) fails: %v", c.H, c.W, c.Extra, err), c)
+	case dis != "":
+		chk.Violation("C16/BitMatrix/ParseBoolMap", fmt.Sprintf("ParseBoolMapToBitMatrix of %d rows of %d cells (content %d; later rows carry %d extra true cells beyond the first row's width): %s", c.H, c.W, c.Init, c.Extra, dis), c)
+	default:
+		l.Distinct("nontrivial", fmt.Sprint("boolmap", c))
+	}
+}
+
+func runBoolMaps() {
+	var cases []boolMapCase
+	for w := 1; w <= 70; w++ {
+		for _, h := range []int{1, 2, 3, 5} {
+			for _, init := range []int{0, 2, 3} {
+				for _, extra := range []int{0, 1, 2, 31, 32, 33, 70} {
+					if extra > 0 && h == 1 {
+						continue
+					}
+					cases = append(cases, boolMapCase{"boolmap", w, h, init, extra})
+				}
+			}
+		}
+	}
+	chk.Range("ParseBoolMapToBitMatrix: every width 1..70 x heights {1,2,3,5} x 3 contents x later rows longer than the first by {0,1,2,31,32,33,70} true cells (cells outside the image): the matrix equals the model of the first row's width", len(cases),
+		func(i int) string { return fmt.Sprint(cases[i]) },
+		func(l *mc.Local, i int) { boolMapOne(l, cases[i]) })
+	chk.Sample("BitMatrix boolmap", boolMapCase{"boolmap", 3, 2, 0, 2})
+}
